@@ -2,6 +2,7 @@
 import likestream
 import userlike
 import tempchains
+import strlits
 import semprops
 
 
@@ -20,6 +21,7 @@ def run(res):
     likestream.run(res, "complete")
     failing += userlike.run(res, "complete")
     failing += tempchains.run(res)
+    failing += strlits.run(res)
     semprops.finish(res, "C02", cases, bad, sem_dis, na, nc, failing, matching,
                     "the shared semantic corpus (see C01); fields are listed in shuffled order, repeated, omitted under `..`; empty "
                     "collections, boundary values, sets needing backtracking; non-trivial = triples the specification says match",
@@ -28,6 +30,8 @@ def run(res):
 
 def replay(res, path):
     import json
+    if json.load(open(path)).get("strlit_program"):
+        return strlits.replay(json.load(open(path)))
     if json.load(open(path)).get("temp_chain_program"):
         n = tempchains.run(res)
         print("chains through temporaries re-run:", "violation" if n else "property holds on these inputs")
